@@ -91,7 +91,7 @@ let vkind_str = function
   | VDupSym -> "dup-symbol" | VDupType -> "dup-type" | VDupLabel -> "dup-label" | VDupTemp -> "dup-temp"
   | VUndefTemp -> "undef-temp" | VNotDom -> "not-dominated" | VClass -> "class" | VNoLabel -> "no-label"
   | VPhiPreds -> "phi-preds" | VPhiSet -> "phi-set" | VNoTerm -> "no-terminator" | VNoType -> "type-before-def" | VCallSig -> "call-signature"
-  | VRetClass -> "ret-class" | VDomFuel -> "dom-fuel"
+  | VRetClass -> "ret-class" | VDomFuel -> "dom-fuel" | VEntryPhi -> "entry-phi"
 
 let find_func (p : parsed) (g : int) : func option =
   List.fold_left (fun acc d -> match acc, d with None, Dfunc f when to_int f.f_name = g -> Some f | _ -> acc) None p.m
@@ -108,7 +108,7 @@ let viol_line (p : parsed) (v : violation) : string =
     | (VDupTemp | VUndefTemp | VNotDom), Some fi -> "%" ^ name_or fi.temps aux
     | (VNoLabel | VDupLabel | VNoTerm), Some fi -> "@" ^ name_or fi.labels aux
     | VPhiPreds, Some fi -> "@" ^ name_or fi.labels aux
-    | VPhiSet, Some fi -> "%" ^ name_or fi.temps aux
+    | (VPhiSet | VEntryPhi), Some fi -> "%" ^ name_or fi.temps aux
     | (VNoType | VDupType), _ -> ":" ^ name_or p.tnames aux
     | (VCallSig | VDupSym), _ -> "$" ^ name_or p.gnames aux
     | _ -> "-" in
@@ -120,7 +120,7 @@ let viol_line (p : parsed) (v : violation) : string =
        | None -> ""
        | Some b ->
          if idx < 0 then
-           (match List.find_opt (fun ph -> (match k with VPhiPreds | VNoLabel -> List.exists (fun (l, _) -> to_int l = aux) ph.p_args | VPhiSet | VClass -> to_int ph.p_res = aux | _ -> List.exists (fun (_, r) -> r = RTmp (bi aux)) ph.p_args)) b.b_phis with
+           (match List.find_opt (fun ph -> (match k with VPhiPreds | VNoLabel -> List.exists (fun (l, _) -> to_int l = aux) ph.p_args | VPhiSet | VClass | VEntryPhi -> to_int ph.p_res = aux | _ -> List.exists (fun (_, r) -> r = RTmp (bi aux)) ph.p_args)) b.b_phis with
             | Some ph -> phi_str c ph | None -> (match b.b_phis with ph :: _ -> phi_str c ph | [] -> ""))
          else if idx < List.length b.b_insts then inst_str c (List.nth b.b_insts idx)
          else (match b.b_jump with Some j -> jump_str c j | None -> "<no jump>"))
